@@ -218,7 +218,7 @@ func TestC02(t *testing.T) {
 			var cells [1024]int64
 			var steps, e1, dec, ints, bothPan int64
 			maxActs := rig.Pick(32, 128)
-			r.Rapid("machine", rig.Pick(20000, 200000), func(t *rapid.T) {
+			r.Rapid("machine", rig.Pick(50000, 300000), func(t *rapid.T) {
 				d := rig.RapidDrawer{T: t}
 				syn := rig.NewSynth(d, nil)
 				op0 := byte(d.U32("op0-pre"))
